@@ -57,7 +57,8 @@ def run (j : Json) : Except String Json := do
     out := out ++ [("verdict", .str (verdictStr v)), ("wf", .bool (wfDecl cls)),
                    ("tsafe", .bool (tsafeCls cls)), ("plain", .bool (plainDoc opts cls d)),
                    ("declDefects", strs (declDefects cls)),
-                   ("docIssues", strs (docIssues opts cls (if mapperFree then d else untrV Mp cls d))),
+                   ("docIssues", strs (if mapperFree then docIssues opts cls d
+                                        else (docIssues opts cls (untrV Mp cls d) ++ docIssues opts cls d).eraseDups)),
                    ("cascade", .bool (cascades Mp [] cls)), ("eligible", .bool (eligible Mp cls))]
     let tru := deserializeTrusted Mp O opts cls d
     out := out ++ [("trusted", resToJson tru)]
